@@ -86,6 +86,20 @@ CLAIMED = {
         "see C12). Atomicity of os.replace and freshness of mkstemp names are assumed (POSIX). One genuine defect found and repaired "
         "(fix: 1023136). Trusted: pyvc engine + contracts/fsmodel.py event discipline + z3.",
    design="§3 C13"),
+ "C16": dict(
+   category="proof",
+   text="With a ghost process directory CWD (os.chdir either sets it or raises and changes nothing) and a ghost predicate for which chdir "
+        "would succeed: _change_working_directory is all-or-nothing, keeps $PWD == CWD, sets $OLDPWD to the previous $PWD and reports "
+        "whether it happened; cd / pushd_fn / popd_fn / dirs_fn preserve $PWD == CWD; a non-zero return code implies $PWD, $OLDPWD, CWD and "
+        "DIRSTACK are unchanged; a zero code with an attempted chdir implies the process really is there; cd - / cd -N / pushd dir / pushd / "
+        "pushd -n / popd / popd +-N / dirs +-N select the documented entries under both $PUSHD_MINUS settings; the stack holds at most "
+        "$DIRSTACK_SIZE entries after every pushd and truncation drops from the bottom. All paths, all stacks, all arguments. The same "
+        "contracts are evaluated on a real directory tree (stacks of <= 3 dirs, injected chdir failures) as cross-check.",
+   note="KNOWN FINDING (recorded, class excluded from the rotation clause only): pushd +-N moves entry N to the top instead of rotating. "
+        "Two genuine defects repaired (fix: 917b945, 38594ac). Unverified: symlink semantics of realpath / cd -P, $CDPATH globbing, Windows UNC "
+        "mapping, ArgParserAlias argument decoding, the default (tilde-abbreviated) dirs listing, with_pushd and the path-literal cd() context "
+        "manager, BaseShell._fix_cwd. Assumes stack entries are absolute paths. Trusted: pyvc engine + models + z3/cvc5.",
+   design="§3 C16"),
 }
 NA = {
  "C01": "equivalence of two grammars (PLY LALR tables vs CPython's PEG parser) is not a function contract; no contract within reach can express or decide it (DESIGN §3 C01)",
